@@ -17,7 +17,7 @@
   One step = one channel operation / one `Done` / the `close` of one goroutine.  A schedule is a
   list of (goroutine index, choice); no fairness is assumed.  Goroutines: the `w` workers, the
   closer (`wg.Wait(); close(out)`), and the producer that sends the items on the input channel
-  (capacity `cap`; 1 stands for an unbuffered channel) and closes it at the end — ReadMultiTrees for
+  (capacity `cap`; 0 = unbuffered: send and receive are one rendezvous step) and closes it at the end — ReadMultiTrees for
   the commands, the edge feeder of TBE, the caller otherwise.  A worker at the head of its loop
   blocks while the input channel is empty and open.  The consumer of the result channel is always
   ready (Compare: the caller ranges over `stats`; FBP: the caller ranges over `foundEdges`), so a
@@ -41,6 +41,16 @@ inductive Sync where
 structure Write where
   var : String      -- the captured variable (as named in the goroutine)
   how : String      -- assign / elem / field / incdec / atomic, and the call chain when the write is inside a callee
+  sync : Sync
+  line : Nat
+  deriving DecidableEq, Repr
+
+/-- one read or write of a captured variable by a goroutine; `form`: whole (the variable itself), elem,
+    field, deref.  For a read `mutex` means "some lock, read or write, is held". -/
+structure Access where
+  var : String
+  form : String
+  write : Bool
   sync : Sync
   line : Nat
   deriving DecidableEq, Repr
@@ -75,6 +85,8 @@ structure Goroutine where
   writes : List Write
   sends : List (String × Nat)           -- channel, line
   closes : List (String × Nat × Bool)   -- channel, line, "a `wg.Wait()` precedes the close in this goroutine"
+  accesses : List Access                -- writes, and the reads of the variables some goroutine of the function writes
+  multi : Bool                          -- started inside a loop: several instances run concurrently
   waits : Bool                          -- calls `wg.Wait()`
   addOK : Bool                          -- `wg.Add(1)` precedes the `go` statement in its block, or `wg.Add(N)` the loop `i < N`
   returnsBeforeClose : List Nat         -- `return`s located before the `close(ch)` this goroutine is responsible for
@@ -104,6 +116,30 @@ def PoolFacts.rangeEndDone (F : PoolFacts) : Bool := F.exits.all (fun e => !e.is
 
 /-- the `return`/`break` statements inside the loop body -/
 def PoolFacts.earlyExits (F : PoolFacts) : List Exit := F.exits.filter (fun e => !e.isRangeEnd)
+
+/-- two accesses that may run concurrently are ordered by their synchronisation: both under a lock,
+    both atomic, or both to cells owned through the received item -/
+def Sync.compatible : Sync → Sync → Bool
+  | .mutex, .mutex => true
+  | .atomic, .atomic => true
+  | .itemIndexed, .itemIndexed => true
+  | _, _ => false
+
+/-- a write and a read touch the same memory: a write of the whole variable meets every read of it;
+    otherwise element meets element, field meets field, pointee meets pointee -/
+def Access.overlaps (w r : Access) : Bool :=
+  w.var == r.var && (w.form == "whole" || w.form == r.form)
+
+/-- races visible in the table: a write by one goroutine and a read or write by another goroutine of the
+    same function (or by another instance of the same `go` statement when it is started in a loop, or by
+    the part of the function itself that runs meanwhile) of overlapping memory without compatible
+    synchronisation: (variable, line of the write, line of the other access) -/
+def racePairs (gs : List Goroutine) : List (String × Nat × Nat) :=
+  gs.flatMap fun g1 => gs.flatMap fun g2 =>
+    if g1.file == g2.file && g1.fn == g2.fn && (g1.line != g2.line || g1.multi) then
+      (g1.accesses.filter (·.write)).flatMap fun w =>
+        ((g2.accesses.filter fun r => w.overlaps r && !w.sync.compatible r.sync)).map fun r => (w.var, w.line, r.line)
+    else []
 
 def Goroutine.exitsWithoutDone (g : Goroutine) : List Exit := if g.counted then g.facts.exitsWithoutDone else []
 def Goroutine.unsyncSharedWrites (g : Goroutine) : List Write := g.facts.unsyncSharedWrites
@@ -139,7 +175,7 @@ structure PState (α β : Type) where
   pending : List α           -- items the producer goroutine has not sent yet
   prod : Bool                -- the producer goroutine is still running
   srcOpen : Bool             -- the input channel is not closed yet
-  cap : Nat                  -- capacity of the input channel (1 stands for an unbuffered one)
+  cap : Nat                  -- capacity of the input channel (0 = unbuffered: rendezvous)
   inp : List α               -- items sitting in the input channel
   workers : List (Phase α β)
   wg : Nat                   -- WaitGroup counter
@@ -170,7 +206,12 @@ def stepFn (F : Shape) (f : α → β) (stops : α → Bool) (s : PState α β) 
     match s.inp with
     | x :: r => some { s with inp := r, workers := s.workers.set i (.holding x) }
     | [] =>
-      if s.srcOpen then none    -- blocked on the empty, open channel
+      if s.cap = 0 ∧ s.prod = true then
+        -- unbuffered input channel (capacity 0): the producer's send and this receive are one step
+        match s.pending with
+        | x :: r => some { s with pending := r, workers := s.workers.set i (.holding x) }
+        | [] => none            -- nothing offered: the producer is about to close
+      else if s.srcOpen then none    -- blocked on the empty, open channel
       else some { s with workers := s.workers.set i (if F.rangeEndDone then .exiting else .leaked) }
   | some (.holding x) =>
     if stops x && !F.early.isEmpty then
